@@ -1,0 +1,52 @@
+//go:build verif
+// +build verif
+
+package mod_auth_jwt
+
+import (
+	jose "gopkg.in/square/go-jose.v2"
+
+	"github.com/bfenetworks/bfe/bfe_basic"
+	"github.com/bfenetworks/bfe/bfe_basic/condition"
+	"github.com/bfenetworks/bfe/bfe_http"
+	"github.com/bfenetworks/bfe/bfe_util/json"
+)
+
+// VerifRule is an in-memory JWT rule; JWKSet is the content of the rule's KeyFile (a JSON array of JWKs),
+// decoded exactly the way readKeyFile decodes it.  For the out-of-tree verification harness.
+type VerifRule struct {
+	Cond   string
+	JWKSet []byte
+	Realm  string
+}
+
+type VerifModule struct{ m *ModuleAuthJWT }
+
+func VerifNew() *VerifModule { return &VerifModule{m: NewModuleAuthJWT()} }
+
+// Handle installs rules for product (ruleTable.Update) and runs authJWTHandler on req.
+func (v *VerifModule) Handle(product string, rules []VerifRule, req *bfe_basic.Request) (int, *bfe_http.Response, error) {
+	list := make(RuleList, 0, len(rules))
+	for _, r := range rules {
+		cond, err := condition.Build(r.Cond)
+		if err != nil {
+			return 0, nil, err
+		}
+		var keys []*jose.JSONWebKey
+		if err := json.Unmarshal(r.JWKSet, &keys); err != nil {
+			return 0, nil, err
+		}
+		var kps []keyProvider
+		for _, key := range keys {
+			kps = append(kps, keyProvider{key: key})
+		}
+		list = append(list, AuthJWTRule{Cond: cond, Keys: kps, Realm: r.Realm})
+	}
+	conf := AuthJWTConf{Version: "verif", Config: ProductRules{}}
+	if product != "" {
+		conf.Config[product] = &list
+	}
+	v.m.ruleTable.Update(conf)
+	ret, resp := v.m.authJWTHandler(req)
+	return ret, resp, nil
+}
